@@ -144,9 +144,12 @@ def execute(scenario, ch):
         orig_new = w.handler.new_config
 
         def new_config(cfg):
-            markers.append(len(rec.events))
+            # the marker is taken after the assignment (the call itself is traced and is a pre-emption point):
+            # events that overlap the change are then judged leniently (spurious effects only)
+            r_ = orig_new(cfg)
+            markers.append(len(rec.events) + 1)
             k.log("install", len(cfg))
-            return orig_new(cfg)
+            return r_
         w.handler.new_config = new_config
         reg_ids = {}
 
